@@ -46,10 +46,12 @@ type FileSpec struct {
 }
 
 type ModVer struct {
-	Path   int        `json:"path"`
-	Ver    int        `json:"ver"`
-	Layout string     `json:"layout"` // txt txtar dir
-	Files  []FileSpec `json:"files"`
+	Path      int        `json:"path"`
+	Ver       int        `json:"ver"`
+	Layout    string     `json:"layout"` // txt txtar dir
+	Files     []FileSpec `json:"files"`
+	EmptyMod  bool       `json:"empty_mod,omitempty"`  // the stored .mod file is empty
+	EmptyInfo bool       `json:"empty_info,omitempty"` // the stored .info file is empty
 }
 
 type Req struct {
@@ -106,6 +108,8 @@ func genPlan(t *rapid.T, tier string) any {
 		}
 		seen[[2]int{m.Path, m.Ver}] = true
 		m.Layout = rapid.SampledFrom([]string{"txt", "txtar", "dir"}).Draw(t, "layout")
+		m.EmptyMod = rapid.IntRange(0, 7).Draw(t, "emptymod") == 0
+		m.EmptyInfo = rapid.IntRange(0, 11).Draw(t, "emptyinfo") == 0
 		nf := rapid.IntRange(0, 5).Draw(t, "nfiles")
 		used := map[int]bool{}
 		for k := 0; k < nf; k++ {
@@ -195,9 +199,17 @@ func body(m ModVer, f FileSpec) []byte {
 }
 
 func infoOf(m ModVer) []byte {
+	if m.EmptyInfo {
+		return nil
+	}
 	return []byte(fmt.Sprintf("{\"Version\":%q,\"Time\":\"2020-01-01T00:00:00Z\",\"Short\":\"%x\"}\n", versions[m.Ver], 0xabc000+m.Path*16+m.Ver))
 }
-func modOf(m ModVer) []byte { return []byte("module " + paths[m.Path] + "\n\ngo 1.20\n") }
+func modOf(m ModVer) []byte {
+	if m.EmptyMod {
+		return nil
+	}
+	return []byte("module " + paths[m.Path] + "\n\ngo 1.20\n")
+}
 
 // listed applies Go's rule for which versions of a path are valid and not pseudo-versions.
 func listed(path, ver string) bool {
